@@ -225,6 +225,9 @@ type ttxUnitSpec struct {
 }
 
 // ttxGenStream builds a whole transport stream from a random page schedule
+// ttxFarOdds: one late-table stream in so many has its tables beyond 64 KiB (C17 lowers it for its few documents)
+var ttxFarOdds = 3
+
 func ttxGenStream(r *fw.Rand) ttxStream {
 	// one stream in four carries its tables exactly once and leaves the PID to be found: the demultiplexer then
 	// hands the PMT over only when the stream ends, and the reader starts again from the beginning
@@ -461,6 +464,7 @@ func ttxGenStreamMode(r *fw.Rand, tablesOnce bool) ttxStream {
 	}
 	// a capture that begins in the middle of a transmission: the first teletext PES comes before the first PAT/PMT
 	lateTables := r.P(1, 5)
+	farTables := lateTables && r.P(1, ttxFarOdds) // ... and a long way in: 70 to 100 kB of other packets come first
 	if !lateTables {
 		tables()
 		if r.Bool() && !tablesOnce {
@@ -499,6 +503,12 @@ func ttxGenStreamMode(r *fw.Rand, tablesOnce bool) ttxStream {
 		cnt["teletext_pes"]++
 		ptsList = append(ptsList, pts)
 		if lateTables && len(ptsList) == 1 {
+			if farTables {
+				for i := r.Range(380, 540); i > 0; i-- {
+					w.null()
+				}
+				cnt["streams_with_tables_beyond_64_KiB"]++
+			}
 			tables()
 		}
 		// in between: other PIDs, null packets, tables, non-EBU PES on the teletext PID
